@@ -418,12 +418,23 @@ RULE_ADDENDA = {
             "their own dereference flag."),
     "C07": ("The constructor route also sets URL.Opaque, URL.Fragment and query strings containing '#' on hand-built URL values."),
     "C20": ("Reuse sub-check: one Packer value packs a tree after a Pack of another tree failed half-way, or two Packs on it overlap "
-            "(the first held at its first write while the second runs); the Meta of each call must describe that call's slug."),
+            "(the first held at its first write while the second runs); the Meta of each call must describe that call's slug. "
+            "Non-regular entries must record size 0; trees include hard links."),
     "C19": ("Tree hazards include rule files that are not regular files and directories / files without read or search permission "
             "(an unprivileged pass of the tree sub-check)."),
     "C18": ("Relative paths are asked from several working directories of one Bundle value (each package directory, then outside)."),
     "C15": ("Entries for the archive root ('./', '.', '/', 'a/..') prescribe mode and time of the destination directory; global "
-            "headers also come with directories in their name (nothing may be created for them)."),
+            "headers also come with directories in their name (nothing may be created for them); a sixth of the archives are gzip "
+            "streams of two members cut at an entry boundary."),
+    "C01": ("Also: destinations that do not exist yet (with root entries that are not directories), unclean absolute destination spellings."),
+    "C02": ("Also: hard links, link targets with backslashes, unclean absolute destination spellings ('//', '/./', '/dst/../dst')."),
+    "C11": ("The builder check also adds the declaring file itself as the artifact (relative addresses resolve against the address analysed)."),
+    "C13": ("Worlds include near-clones that differ only in where an in-package link leads, twin versions pinned by final calls and "
+            "unpinned requests among twins leading to different packages."),
+    "C14": ("A quarter of the rapid cases (a fifth of the exhaustive ones) make their Add calls from concurrent goroutines; the harness "
+            "fetcher edits the URL it is given; registry answers are built through MakeRemoteSource."),
+    "C08": ("One package host has an upper-case letter; commit messages include bytes that are not UTF-8 (known finding); clones that differ "
+            "in an empty directory only (known finding); the general lookup is compared with the specific ones."),
     "C04": ("An unprivileged pass of the links sub-check, with scenario families that put the offending link into a directory recorded as read-only."),
 }
 for _k, _v in RULE_ADDENDA.items():
